@@ -57,3 +57,13 @@ package admission
 //@        && json.lastEncoded.(v1.AdmissionReview).Response != nil && json.lastEncoded.(v1.AdmissionReview).Response.UID == lastReviewed.UID
 //@   ensures [error-denied]    json.nEncoded == old(json.nEncoded) + 1 && lastReviewErr != nil ==> !json.lastEncoded.(v1.AdmissionReview).Response.Allowed
 //@   ensures [verdict-relayed] json.nEncoded == old(json.nEncoded) + 1 && lastReviewErr == nil ==> json.lastEncoded.(v1.AdmissionReview).Response == lastReviewResp
+
+// C14: rendering a response for the log changes nothing of it - not a field, not a byte of the patch
+// (the operator logs the hook's response between storing it for the HTTP handler and the handler's
+// reading it: a rendering that edits the patch in place would relay a corrupted patch).
+//@ func (*Response).Dump
+//@   prop C14
+//@   requires r != nil
+//@   modifies nothing
+//@   loop 1
+//@     invariant 0 <= iter() && iter() <= len(r.Warnings)
